@@ -571,6 +571,19 @@ func JudgeC08(sc *Scenario, tr *Transcript) *Verdict {
 					rtAfterCfg = true
 				}
 			}
+			// a shard that stops answering in the middle of the cycle gets nothing further in that cycle
+			for i, rq := range reqs {
+				if rq.Method == "POST" && rq.Failed {
+					vd.class("update-not-answered")
+					for _, later := range reqs[i+1:] {
+						if later.Method == "POST" {
+							vd.add("C08/update-after-unanswered-update", "replica %d: shard %d did not answer %s, yet it was sent %s in the same cycle (stop reason %q)", ri, s, rq.Path, later.Path, sc.Stop)
+							break
+						}
+					}
+					break
+				}
+			}
 			if !sp.Ready && len(reqs) > 0 {
 				vd.class("unready-contacted")
 			}
